@@ -217,13 +217,14 @@ def Slug(name):
 
 
 # ---- aggregates ---------------------------------------------------------------
-# One predicate carries all scalar aggregates of a domain, except for the empty
-# input: semrun's explanation stage first tests the full set of engine
-# deviations, and "Set of nothing is []" (listed for C02) does not hold where
-# "List of nothing is []" does, so a table holding both could not be explained;
-# for the empty input Set is kept apart from Count / List.  At most three
-# deviations meet in one table (no rows: Count 0, List [], one row for no key;
-# only nulls: Count 0, List and Set keep nulls).
+# Set is kept apart from Count / List.  (1) semrun's explanation stage first
+# tests the full set of engine deviations, and "Set of nothing is []" (listed
+# for C02) does not hold where "List of nothing is []" does, so a table of the
+# empty input holding both could not be explained.  (2) With "List keeps nulls"
+# and "Set keeps nulls" in different tables every null-holding input is
+# explained by a single deviation (first, cheapest explanation round).  At most
+# three deviations meet in one table (no rows: Count 0, List [], one row for
+# no key).
 NUM_AGGS_A = [('s', 'Sum'), ('mn', 'Min'), ('mx', 'Max'), ('av', 'Avg'),
               ('st', 'Set')]
 NUM_AGGS_B = [('c', 'Count'), ('l', 'List')]
@@ -280,15 +281,20 @@ def Arrangements(ms):
 
 
 def ValueSequences(tier, rng, symbols=(None, 0, 1, 2), full=3, maxlen=4,
-                   picks=2):
-  """quick: every arrangement up to `full` rows, `picks` seeded arrangements of
-  every multiset of `maxlen` rows; thorough: every arrangement."""
+                   picks=1):
+  """thorough: every arrangement of every multiset of size <= maxlen.
+  quick: every arrangement up to 2 rows and every null-free arrangement of
+  `full` rows; `picks` seeded arrangements of every other multiset."""
   key = lambda v: (v is not None, v if v is not None else 0)
   if tier == 'thorough':
     return Sequences(symbols, maxlen)
-  out = Sequences(symbols, full)
-  for n in range(full + 1, maxlen + 1):
+  out = Sequences(symbols, full - 1)
+  out += Sequences([x for x in symbols if x is not None], full)[
+      len(Sequences([x for x in symbols if x is not None], full - 1)):]
+  for n in range(full, maxlen + 1):
     for ms in Multisets(sorted(symbols, key=key), n):
+      if n == full and None not in ms:
+        continue
       arr = Arrangements(tuple(ms))
       for a in rng.sample(arr, min(picks, len(arr))):
         out.append(list(a))
@@ -302,12 +308,8 @@ def Tv(v):
 def ScalarAggCase(seq, strings=True):
   nums = [[Tv(v)] for v in seq]
   strs = [[Tv(None if v is None else STR_OF[v])] for v in seq]
-  if seq:
-    num_groups = [('N', NUM_AGGS_A + NUM_AGGS_B)]
-    str_groups = [('S', STR_AGGS_A + STR_AGGS_B)]
-  else:
-    num_groups = [('A', NUM_AGGS_A), ('B', NUM_AGGS_B)]
-    str_groups = [('C', STR_AGGS_A), ('D', STR_AGGS_B)]
+  num_groups = [('A', NUM_AGGS_A), ('B', NUM_AGGS_B)]
+  str_groups = [('C', STR_AGGS_A), ('D', STR_AGGS_B)]
   preds = [Facts('E', nums, 1)]
   query, groups = [], []
   for suffix, fields in num_groups:
